@@ -38,6 +38,104 @@ func affineOf(v ssa.Value) affine {
 	return affine{v, 0}
 }
 
+// madeLen: the length operand of the make() that produced x — x itself, or the only value ever stored into the
+// field of a local struct that x is loaded from (`r := T{Items: make([]E, n)}` … `r.Items[i]`). nil if unknown.
+func madeLen(x ssa.Value) ssa.Value {
+	x = stripConv(x)
+	if mk, ok := x.(*ssa.MakeSlice); ok {
+		return mk.Len
+	}
+	ld, ok := x.(*ssa.UnOp)
+	if !ok || ld.Op != token.MUL {
+		return nil
+	}
+	fa, ok := ld.X.(*ssa.FieldAddr)
+	if !ok {
+		return nil
+	}
+	root, ok := fa.X.(*ssa.Alloc)
+	if !ok || root.Referrers() == nil {
+		return nil
+	}
+	var made ssa.Value
+	stores := 0
+	// `r := T{…}` builds the literal in its own temporary and copies it into r once: look at both
+	roots := []*ssa.Alloc{root}
+	whole := 0
+	for _, r := range *root.Referrers() {
+		if st, ok := r.(*ssa.Store); ok && st.Addr == ssa.Value(root) {
+			whole++
+			if l, ok := st.Val.(*ssa.UnOp); ok && l.Op == token.MUL {
+				if lit, ok := l.X.(*ssa.Alloc); ok && lit.Referrers() != nil {
+					roots = append(roots, lit)
+				}
+			}
+		}
+	}
+	if whole > 1 || (whole == 1 && len(roots) == 1) {
+		return nil
+	}
+	for _, rt := range roots {
+		n, ok := madeLenIn(rt, fa.Field, rt != root || whole == 1)
+		if !ok {
+			return nil
+		}
+		if n.stores > 0 {
+			stores += n.stores
+			made = n.made
+		}
+	}
+	if stores != 1 {
+		return nil
+	}
+	return made
+}
+
+type madeLenResult struct {
+	made   ssa.Value
+	stores int
+}
+
+// madeLenIn scans one struct local: stores into its field `field`; ok=false if the struct or the field escapes.
+// wholeStoreOK: one whole-struct store into this local has already been accounted for by the caller.
+func madeLenIn(root *ssa.Alloc, field int, wholeStoreOK bool) (res madeLenResult, ok bool) {
+	for _, r := range *root.Referrers() {
+		switch y := r.(type) {
+		case *ssa.FieldAddr:
+			if y.Field != field || y.Referrers() == nil {
+				continue
+			}
+			for _, rr := range *y.Referrers() {
+				switch z := rr.(type) {
+				case *ssa.Store:
+					if z.Addr == ssa.Value(y) {
+						res.stores++
+						if mk, ok := stripConv(z.Val).(*ssa.MakeSlice); ok {
+							res.made = mk.Len
+						}
+					} else {
+						return res, false // the field's address is stored somewhere
+					}
+				case *ssa.UnOp, *ssa.DebugRef, *ssa.IndexAddr:
+				default:
+					return res, false // the field's address escapes
+				}
+			}
+		case *ssa.Store:
+			if y.Addr == ssa.Value(root) {
+				if !wholeStoreOK {
+					return res, false // the whole struct is overwritten somewhere
+				}
+				wholeStoreOK = false
+			}
+		case *ssa.UnOp, *ssa.DebugRef:
+		default:
+			return res, false // the struct's address escapes (call argument, closure)
+		}
+	}
+	return res, true
+}
+
 func sameValue(a, b ssa.Value) bool {
 	if a == nil || b == nil {
 		return a == nil && b == nil
@@ -53,6 +151,10 @@ func sameValue(a, b ssa.Value) bool {
 func isLenOf(v ssa.Value, x ssa.Value) bool {
 	call, ok := stripConv(v).(*ssa.Call)
 	if !ok {
+		// the size the sequence was made with: `items := make([]T, n); for i := 0; i < n; i++ { items[i] = … }`
+		if n := madeLen(x); n != nil && sameValue(v, n) {
+			return true
+		}
 		return false
 	}
 	b, ok := call.Call.Value.(*ssa.Builtin)
